@@ -155,11 +155,6 @@ type call struct {
 	GotBody   string
 }
 
-type scnState struct {
-	mu    sync.Mutex
-	calls map[string]*call
-}
-
 func errClass(err error) string {
 	switch {
 	case err == nil:
@@ -445,12 +440,13 @@ func classify(sc *scenario, victim *call, res *result, byID map[string]*call) (k
 	early, tmo, failed := "", "", ""
 	best := 1 << 30
 	for _, cn := range res.snap.Conns {
-		for i, id := range cn.IDs {
+		seq := append(append([]string(nil), cn.IDs...), cn.Drained...) // (drained = sent, but never read by the server)
+		for i, id := range seq {
 			if id != victim.ID {
 				continue
 			}
 			for j := i - 1; j >= 0 && i-j < best; j-- {
-				pc := byID[cn.IDs[j]]
+				pc := byID[seq[j]]
 				if pc == nil {
 					continue
 				}
@@ -511,7 +507,6 @@ func TestC04(t *testing.T) {
 		hangAfter = time.Duration(k) * time.Second
 	}
 	onlyProfile := os.Getenv("C04_ONLY_PROFILE")
-	var totalCalls, judged int64
 	otherErrs := map[string]int{}
 	var cmu sync.Mutex
 	mon.Parallel(n, 48, func(i int) {
@@ -596,9 +591,17 @@ func TestC04(t *testing.T) {
 				key, why := classify(sc, c, res, byID)
 				var trace []any
 				for _, cn := range res.snap.Conns {
-					for _, id := range cn.IDs {
+					seq := append(append([]string(nil), cn.IDs...), cn.Drained...)
+					for k, id := range seq {
 						if id == c.ID {
-							trace = append(trace, map[string]any{"conn": cn.N, "ids": cn.IDs, "behaviours": cn.Beh, "unread_at_request": cn.Unread})
+							var before []*call
+							for j := k - 1; j >= 0 && j >= k-6; j-- {
+								if pc := byID[seq[j]]; pc != nil {
+									before = append(before, pc)
+								}
+							}
+							trace = append(trace, map[string]any{"conn": cn.N, "ids": cn.IDs, "behaviours": cn.Beh, "unread_at_request": cn.Unread,
+								"drained_unparsed": cn.Drained, "closed_by_server": cn.ByServer, "calls_before_on_this_conn": before})
 							break
 						}
 					}
@@ -654,10 +657,6 @@ func TestC04(t *testing.T) {
 		r.Event("hostclient_request_reused_conn_of_early_closed_stream_with_unread_bytes", afterEarly)
 		r.Event("hostclient_request_followed_timed_out_call_on_conn", afterTmo)
 		r.Event("mismatches", mism)
-		cmu.Lock()
-		totalCalls += int64(len(res.calls))
-		judged += int64(okN)
-		cmu.Unlock()
 		if r.WantSample() && reusedConns > 0 && len(res.snap.Conns) > 0 {
 			cn := res.snap.Conns[0]
 			ids := cn.IDs
